@@ -292,12 +292,12 @@ theorem aggResult_sim2 {O : Oracles} {q : AggStmt} {sf sb : AggState} {S : List 
 /-! ### histories -/
 
 /-- the GROUP BY keys of the rows of an input (those whose key evaluates) -/
-def keysOf (O : Oracles) (q : AggStmt) (envs : List Env) : List (List Value) := envs.filterMap (keyOf O q)
+def groupKeysOf (O : Oracles) (q : AggStmt) (envs : List Env) : List (List Value) := envs.filterMap (keyOf O q)
 
 theorem sim2_runs {O : Oracles} {q : AggStmt} (envs : List Env) {sf0 sb0 sf sb : AggState} {S0 K : List (List Value)}
     (h : Sim2 q sf0 sb0 S0) (hS : ∀ k ∈ S0, k ∈ K)
     (hf : followRun O q envs sf0 = .ok sf) (hb : aggRun O q envs sb0 = .ok sb) :
-    ∃ S, Sim2 q sf sb S ∧ ∀ k ∈ S, k ∈ K ∨ k ∈ keysOf O q envs := by
+    ∃ S, Sim2 q sf sb S ∧ ∀ k ∈ S, k ∈ K ∨ k ∈ groupKeysOf O q envs := by
   induction envs generalizing sf0 sb0 S0 K with
   | nil =>
     simp only [followRun, aggRun, Outcome.ok.injEq] at hf hb
@@ -334,12 +334,12 @@ theorem sim2_runs {O : Oracles} {q : AggStmt} (envs : List Env) {sf0 sb0 sf sb :
     · rcases List.mem_append.mp h1 with h2 | h2
       · exact Or.inl h2
       · right
-        simp only [keysOf, List.filterMap_cons]
+        simp only [groupKeysOf, List.filterMap_cons]
         cases hko : keyOf O q env with
         | none => simp [hko] at h2
         | some k0 => simp only [hko, Option.toList_some, List.mem_singleton] at h2; simp [h2]
     · right
-      simp only [keysOf, List.filterMap_cons]
+      simp only [groupKeysOf, List.filterMap_cons]
       cases keyOf O q env with
       | none => exact h1
       | some k0 => exact List.mem_cons_of_mem _ h1
@@ -354,7 +354,7 @@ theorem follow_table_eq_batch_direct {O : Oracles} {q : AggStmt} (hlim : q.limit
     (hfollow : followRun O q pre {} = .ok sf) (hupd : aggUpdateRow O q sf env = .ok (sf1, true))
     (hres : aggResult O q sf1 = .ok (sf2, out))
     (hbatch : aggRun O q (pre ++ [env]) {} = .ok sb)
-    (hex : KeysExact (keysOf O q (pre ++ [env]))) :
+    (hex : KeysExact (groupKeysOf O q (pre ++ [env]))) :
     finalResult O q { agg := sb } = .ok out := by
   rw [aggRun_append] at hbatch
   obtain ⟨sbp, hbp, hbl⟩ := obind_ok hbatch
@@ -365,9 +365,9 @@ theorem follow_table_eq_batch_direct {O : Oracles} {q : AggStmt} (hlim : q.limit
   obtain ⟨S, hsim, hSk⟩ := sim2_runs pre (sim2_init q) (K := []) (fun k hk => by simp at hk) hfollow hbp
   obtain ⟨hu, S1, hsim1, _, hnew⟩ := sim2_step hsim hupd hbu
   have hexS : KeysExact S1 := by
-    have hsubK : ∀ k ∈ S1, k ∈ keysOf O q (pre ++ [env]) := by
+    have hsubK : ∀ k ∈ S1, k ∈ groupKeysOf O q (pre ++ [env]) := by
       intro k hk
-      simp only [keysOf, List.filterMap_append, List.mem_append]
+      simp only [groupKeysOf, List.filterMap_append, List.mem_append]
       rcases hnew k hk with h1 | h1
       · rcases hSk k h1 with h2 | h2
         · simp at h2
